@@ -287,9 +287,14 @@ def check_scan_compensation(ctx, prog, R):
             continue
         op, X, Y = guard[2]
         evidence = False
+        plv = k7.pre_loop_value(prog, scan, v, at=b)
         for a, o in ((X, Y), (Y, X)):
-            if a is not None and o is not None and a[0] == "var" and a[1] == v and o[0] == "var" and _is_snapshot(scan, o[1], v, strides[(v, C)]):
+            if a is None or o is None or not (a[0] == "var" and a[1] == v):
+                continue
+            if o[0] == "var" and _is_snapshot(scan, o[1], v, strides[(v, C)]):
                 evidence = True
+            if plv is not None and k7.same(o, plv[0]) and op in ("Gt", "Lt", "Ne"):
+                evidence = True     # compared with the value the index had before the loop
         ctx.check(evidence, "scan-compensation", "%s-=%d" % (name, C),
                   "the scanner undoes a strided loop's overshoot (`%s -= %d`) under the guard `%s %s %s`, which is not evidence that the loop "
                   "body ran: when the loop is skipped with %s >= %d the scan steps back over buckets it has already visited and entries are yielded twice "
